@@ -181,6 +181,7 @@ func c12(p *core.Prog, r *core.Report) {
 	r.Rule("C12-R2", "E2 ownership", 20, "no use of a frame after hand-back")
 	r.Rule("C12-R3", "E2 summaries", 8, "handler (result, state) pairs consistent with the reader loop's release")
 	r.Rule("C12-R4", "E2 alias", 2, "alias-owned frame not released directly after the alias owner may have run; done() is latched")
+	releasedByOwnersOnly(p, r, "C12-R1")
 	r.Rule("C12-R5", "E2 leaks", 8, "locally obtained frames are handed back/over on all exits but reviewed fault exits")
 
 	spec, isAcquire, ok := frameSpec(p, r)
@@ -810,4 +811,66 @@ func returnsNonNilError(ret *ssa.Return) bool {
 		}
 	}
 	return false
+}
+
+// recvTypeName: the short name of f's receiver type ("" for plain functions;
+// closures take their parent's).
+func recvTypeName(f *ssa.Function) string {
+	for g := f; g != nil; g = g.Parent() {
+		if recv := g.Signature.Recv(); recv != nil {
+			return shortTypeName(recv.Type())
+		}
+	}
+	return ""
+}
+
+// releasedByOwnersOnly: a pooled object that belongs to a message (its running
+// checksum, its current frame) is given back only by the code that owns the
+// message's life cycle: the fragment writer / reader for their checksum and
+// fragments, the relayer when it finishes an item. A release from anywhere
+// else (a sticky-error setter, a parser's error path, a table accessor) is
+// either a second release of the same object on some path or a release while
+// the owner still uses it.
+func releasedByOwnersOnly(p *core.Prog, r *core.Report, rule string) {
+	type spec struct {
+		key     string
+		what    string
+		owners  map[string]bool
+		finishR bool // a Relayer site must also finish the item
+	}
+	specs := []spec{
+		{"Checksum.Release", "the message's checksum object", map[string]bool{"writableFragment": true, "fragmentingWriter": true, "fragmentingReader": true, "readableFragment": true, "Relayer": true, "noReleaseChecksum": true}, true},
+		{"readableFragment.done", "the fragment's frame", map[string]bool{"fragmentingReader": true, "reqResReader": true, "readableFragment": true}, false},
+	}
+	for _, sp := range specs {
+		n := 0
+		for _, cs := range p.CallsTo(sp.key) {
+			if !p.InAnalysed(cs.Fn) || pkgOf(cs.Fn) != core.Root {
+				continue
+			}
+			n++
+			owner := recvTypeName(cs.Fn)
+			construct := fmt.Sprintf("%s released by its owner (#%d)", sp.what, n)
+			if !sp.owners[owner] {
+				r.Fail(rule, fname(cs.Fn), construct, p.Pos(cs.Call.Pos()), sp.what+" is released by "+fname(cs.Fn)+", which does not own the message's life cycle: the owner releases it as well (double release: two later users share one pooled object) or still uses it")
+				continue
+			}
+			if owner == "Relayer" && sp.finishR && len(p.CallsDeep(cs.Fn, 1, "relayItems.Entomb", "relayItems.Delete")) == 0 {
+				r.Fail(rule, fname(cs.Fn), construct, p.Pos(cs.Call.Pos()), "the relay releases the call's checksum object in a function that does not finish the item: later continuation frames of the call are forwarded without being re-stamped")
+				continue
+			}
+			r.Ok(rule, fname(cs.Fn), construct, p.Pos(cs.Call.Pos()), "released by "+owner)
+		}
+		if n == 0 {
+			r.Errorf("no call site of %s found", sp.key)
+		}
+	}
+	// completing a normal response does not give the request's frames back:
+	// the handler may still be reading its arguments (only the error answer,
+	// which ends reading, and the reader itself do)
+	if f := mustFunc(p, r, "", "InboundCallResponse", "doneSending"); f != nil {
+		bad := p.CallsDeep(f, 3, "reqResReader.releasePreviousFragment")
+		r.Check(len(bad) == 0, rule, fname(f), "completing a response leaves the request's frames to the reader", p.Pos(f.Pos()),
+			"doneSending does not reach releasePreviousFragment", "completing the response releases the request's current frame while the handler may still read its arguments from it (the argument bytes become another message's)")
+	}
 }
